@@ -322,20 +322,58 @@ func ruleECmpPure(p *Program, r *Reporter) {
 				case *ssa.Function:
 					cl = a
 				}
-				if cl == nil {
+				var cls []*ssa.Function
+				if cl != nil {
+					cls = []*ssa.Function{cl}
+				} else if prm, isParam := ci.Common().Args[idx].(*ssa.Parameter); isParam {
+					// the comparator is handed down by the callers of this helper: every one of them must pass a function
+					resolved := true
+					pi := -1
+					for i, q := range fn.Params {
+						if q == prm {
+							pi = i
+						}
+					}
+					callers := 0
+					for _, g := range p.ReachFuncs(p.Eval) {
+						for _, gb := range g.Blocks {
+							for _, gin := range gb.Instrs {
+								gc, ok := gin.(ssa.CallInstruction)
+								if !ok || gc.Common().StaticCallee() != fn || pi < 0 || pi >= len(gc.Common().Args) {
+									continue
+								}
+								callers++
+								switch a := gc.Common().Args[pi].(type) {
+								case *ssa.MakeClosure:
+									cls = append(cls, a.Fn.(*ssa.Function))
+								case *ssa.Function:
+									cls = append(cls, a)
+								default:
+									resolved = false
+								}
+							}
+						}
+					}
+					if !resolved || callers == 0 {
+						cls = nil
+					}
+				}
+				if len(cls) == 0 {
 					r.Unknown(instrPos(in), key, "comparator is not a function literal")
 					continue
 				}
 				bad := ""
-				for _, cb := range cl.Blocks {
-					for _, cin := range cb.Instrs {
-						if st, ok := cin.(*ssa.Store); ok {
-							if _, isFree := st.Addr.(*ssa.FreeVar); isFree {
-								bad = "stores to captured variable " + st.Addr.Name() + " at " + p.Pos(instrPos(st))
+				for _, cl := range cls {
+					for _, cb := range cl.Blocks {
+						for _, cin := range cb.Instrs {
+							if st, ok := cin.(*ssa.Store); ok {
+								if _, isFree := st.Addr.(*ssa.FreeVar); isFree {
+									bad = "stores to captured variable " + st.Addr.Name() + " at " + p.Pos(instrPos(st))
+								}
 							}
-						}
-						if mu, ok := cin.(*ssa.MapUpdate); ok {
-							bad = "updates a map at " + p.Pos(instrPos(mu))
+							if mu, ok := cin.(*ssa.MapUpdate); ok {
+								bad = "updates a map at " + p.Pos(instrPos(mu))
+							}
 						}
 					}
 				}
